@@ -18,7 +18,7 @@ declare -A MAP=(
  [C14-mutA]="C14" [C14-mutB]="C14"
  [C15-mutA]="C15 C09" [C15-mutB]="C15 C09"
  [C16-mutA]="C16" [C16-mutB]="C16 C01"
- [C02-mutC]="C05 C02" [C09-mutC]="C09" [C13-mutC]="C13 C06" [C06-mutC]="C06 C01" [C12-mutC]="C12 C07" [C16-mutC]="C16 C11"
+ [C02-mutC]="C05 C02" [C09-mutC]="C09" [C13-mutC]="C13 C06" [C06-mutC]="C06 C01" [C12-mutC]="C12 C07" [C16-mutC]="C16 C11" [C03-mutC]="C03" [C04-mutC]="C04" [C08-mutC]="C08"
 )
 for seed in $(ls seeded); do
   [ -n "$1" ] && [ "$1" != "$seed" ] && continue
